@@ -207,4 +207,94 @@ PROPERTIES = {
             "overrides the bound with max_distances[k-1], which is 0 on heavily duplicated data (note N3 in DESIGN)",
         ],
     },
+    "C14": {
+        "functions": ["opfython.models.knn_supervised.KNNSupervisedOPF.predict",
+                      "opfython.models.unsupervised.UnsupervisedOPF.predict",
+                      "opfython.subgraphs.knn.KNNSubgraph.__init__", "opfython.core.subgraph.Subgraph.__init__",
+                      "opfython.core.subgraph.Subgraph._build"],
+        "lemmas": [],
+        "files": ["opfython/models/knn_supervised.py", "opfython/models/unsupervised.py", "opfython/subgraphs/knn.py",
+                  "opfython/core/subgraph.py", "opfython/core/node.py", "opfython/utils/constants.py"],
+        "bounded": "bounded.knn",
+        "level": "proof",
+        "trusted": COMMON_TRUST[:3] + [
+            "the statement is discharged as an in-line assertion at the end of every iteration of the query loop (anchor "
+            "after:loop4, clauses k_nearest_*, nobody_closer_outside, density_formula, winner) for an arbitrary query index; "
+            "the returned lists are the labels / clusters assigned there",
+            "arc weights: uninterpreted DFN(query, training) / PRE(idx query, idx training), finite and non-negative; no "
+            "symmetry assumed (argument order as in the code)",
+            "exp uninterpreted (positive, <= 1 for non-positive arguments); the sum over the k distances is a ghost "
+            "partial-sum array; EPSILON is the exact value of the double read from constants.py",
+            "index arrays modelled as integers; precondition `fitted`: 1 <= best_k <= number of training samples, constant > 0, "
+            "0 <= min_density <= max_density <= 1 - established by create_arcs / calculate_pdf (C12) and the k selection (C16)",
+        ],
+    },
+    "C16": {
+        "functions": ["opfython.models.knn_supervised.KNNSupervisedOPF._learn", "opfython.models.knn_supervised.KNNSupervisedOPF.fit",
+                      "opfython.models.unsupervised.UnsupervisedOPF._best_minimum_cut",
+                      "opfython.models.unsupervised.UnsupervisedOPF._normalized_cut",
+                      "opfython.models.unsupervised.UnsupervisedOPF.fit",
+                      "opfython.models.knn_supervised.KNNSupervisedOPF._clustering",
+                      "opfython.models.unsupervised.UnsupervisedOPF._clustering",
+                      "opfython.models.knn_supervised.KNNSupervisedOPF.predict",
+                      "opfython.subgraphs.knn.KNNSubgraph.create_arcs", "opfython.subgraphs.knn.KNNSubgraph.calculate_pdf",
+                      "opfython.core.subgraph.Subgraph.destroy_arcs", "opfython.subgraphs.knn.KNNSubgraph.__init__"],
+        "lemmas": ["inj_card", "inj_card_off", "inj_card_goff", "pigeonhole"],
+        "files": ["opfython/models/knn_supervised.py", "opfython/models/unsupervised.py", "opfython/subgraphs/knn.py",
+                  "opfython/core/subgraph.py", "opfython/core/node.py", "opfython/core/heap.py", "opfython/math/general.py",
+                  "opfython/utils/constants.py"],
+        "bounded": "bounded.knn",
+        "level": "proof",
+        "trusted": COMMON_TRUST[:3] + [
+            "ASSUMED contract of g.opf_accuracy (its body is C20's subject): returns a real in [0, 1]",
+            "the criterion values are ghost sequences: acc[k] / cut[k] := the value returned in iteration k; the postconditions "
+            "say best_k is the smallest index attaining the maximum (minimum) over the candidates evaluated, that evaluation of "
+            "cuts is a prefix min_k..last and stops early only after a cut of exactly 0, and that the final graph / clustering "
+            "is built with subgraph.best_k",
+            "preconditions: 1 <= k range <= n - 1, n < 2^53; unsupervised k selection additionally assumes that distinct "
+            "training samples are at positive distance (otherwise the density bound max_distances[k-1] used for candidate k "
+            "can be 0 and the intermediate density estimates are NaN - note N3 in DESIGN; the final model is unaffected)",
+            "pre-computed matrix of the KNN model has shape n x n (otherwise _learn raises BuildError)",
+        ],
+    },
+    "C04": {
+        "functions": ["opfython.models.knn_supervised.KNNSupervisedOPF.fit", "opfython.models.knn_supervised.KNNSupervisedOPF._clustering",
+                      "opfython.models.knn_supervised.KNNSupervisedOPF._learn"] + HEAP_FUNCS,
+        "lemmas": HEAP_LEMMAS + ["inj_card_off", "inj_card_goff", "inj_card"],
+        "files": ["opfython/models/knn_supervised.py", "opfython/models/supervised.py", "opfython/core/heap.py",
+                  "opfython/subgraphs/knn.py", "opfython/math/distance.py", "opfython/utils/constants.py"],
+        "bounded": "bounded.c04",
+        "level": "other",
+        "explanation": "PROVED (all data, ties included): KNN-supervised training assigns every training sample its own label - "
+                       "postcondition C04_own_labels of KNNSupervisedOPF.fit, from the invariant K7_force of _clustering "
+                       "(a conquest across classes is forced to -FLOAT_MAX and can never beat a cost >= density - 1 >= 0). "
+                       "NOT PROVED: the supervised half. C01 + C02 + C03 reduce it to the theorem of Papa, Falcao & Suzuki "
+                       "2009 (with MST prototypes and distinct weights every training node is conquered by a prototype of its "
+                       "own class), which is CITED, not mechanised. BOUNDED stand-in: the real fit/predict on tie-free weight "
+                       "orders injected through pre_distances (exhaustive for n <= 4, seeded samples for n = 5, 6) and on "
+                       "generic positive data with every metric that is a symmetric non-negative dissimilarity.",
+        "trusted": COMMON_TRUST + ["see C13 / C16 for the contracts the KNN half rests on"],
+    },
+    "C09": {
+        "functions": [SUP + "predict", "opfython.core.subgraph.Subgraph.mark_nodes",
+                      "opfython.models.knn_supervised.KNNSupervisedOPF.predict",
+                      "opfython.models.unsupervised.UnsupervisedOPF.predict", "effects:C07"],
+        "lemmas": [],
+        "files": ["opfython/models/supervised.py", "opfython/models/knn_supervised.py", "opfython/models/unsupervised.py",
+                  "opfython/core/subgraph.py", "opfython/subgraphs/knn.py", "opfython/core/node.py"],
+        "bounded": "bounded.c09",
+        "level": "other",
+        "explanation": "PROVED: (1) frame - predict of the KNN-supervised and unsupervised models modifies NO model state "
+                       "(`modifies` is empty; one frame obligation per field of the model and its subgraph), supervised / "
+                       "semi-supervised predict modifies only the relevance flags, which it never reads; hence earlier calls "
+                       "and batch-mates cannot influence a prediction through the model; (2) the per-sample characterisations "
+                       "C03 / C14 hold for an arbitrary position of the query loop and mention only the model state and that "
+                       "sample's node (scratch buffers are re-initialised per query, which is part of the discharged entry "
+                       "obligations); (3) no global state, clock or RNG is read (effects layer). NOT PROVED: that tie-breaking "
+                       "among equally good candidates is position independent (it is determined by the scan order over "
+                       "training samples; a relational lockstep proof is not built). BOUNDED: relational run-time contract - "
+                       "the same sample alone, at every position of batches with other samples / duplicates, and after earlier "
+                       "predict calls, on all four model kinds.",
+        "trusted": COMMON_TRUST[:3] + ["see C03, C14, C07"],
+    },
 }
